@@ -605,8 +605,17 @@ func c42RefCases(r *Rng, fs *c42FileSet, class string, genCore bool) []Case {
 			count[namesOf(b)]++
 		}
 	}
+	// ... and every board on the way down must be unambiguous too (FindBoardRoot takes the first match)
+	unique := func(b c42Block) bool {
+		for n := 2; n <= len(b.Path); n += 2 {
+			if count[namesOf(c42Block{Path: b.Path[:n]})] != 1 {
+				return false
+			}
+		}
+		return true
+	}
 	for _, b := range allBlocks {
-		if b.IsBoard && count[namesOf(b)] == 1 {
+		if b.IsBoard && unique(b) {
 			blocks = append(blocks, b)
 		}
 	}
